@@ -31,7 +31,15 @@ class FileStub(Native):
     def read(self) -> Any:
         if self.path not in self.vfs.files:
             raise AbsRaise("FileNotFoundError")
-        return self.vfs.files[self.path]
+        data = self.vfs.files[self.path]
+        if "b" in self.mode and isinstance(data, str):
+            return data.encode("utf8")                 # the virtual file system stores text files as UTF-8
+        if "b" not in self.mode and isinstance(data, (bytes, bytearray)):
+            try:
+                return bytes(data).decode(self.encoding or "utf8")
+            except (UnicodeDecodeError, LookupError) as exc:
+                raise AbsRaise(f"UnicodeDecodeError: {exc}") from exc
+        return data
 
     def close(self) -> None:
         return None
